@@ -100,11 +100,43 @@ def nd_binop(ex, sym, a, b, p, node):
     return [(p, NDArr(arr.n, at, "float64" if not scn.is_int else arr.dtype))]
 
 
+_SUMS = {}
+
+
+def nd_sum(ex, base: NDArr):
+    """assumed (numpy): arr.sum() is a function of the array -- one uninterpreted real per array value (the array object is
+    kept alive so that its identity stays unique)"""
+    if id(base) not in _SUMS:
+        _SUMS[id(base)] = (base, Num(ex.fresh_sym(z3.RealSort(), "ndsum")))
+    ex.trace["assumed"].add("numpy: arr.sum() is a function of the array (uninterpreted)")
+    return _SUMS[id(base)][1]
+
+
+def np_mean(ex, p, args, kw, node):
+    """assumed (numpy): mean of a non-empty list of reals = sum / count"""
+    xs = ex.as_list(args[0], p, node)
+    if not xs.concrete or not xs.items:
+        raise Unsupported("numpy.mean of a list of unknown or zero length")
+    ex.trace["assumed"].add("numpy.mean(xs) = sum(xs) / len(xs) (floats read as reals)")
+    tot = None
+    for x in xs.items:
+        r = ex.as_num(x, p, node)[1].real()
+        tot = r if tot is None else tot + r
+    return [(p, Num(tot / len(xs.items)))]
+
+
+def np_isnan(ex, p, args, kw, node):
+    ex.trace["assumed"].add("numpy.isnan is false on the values modelled here (reals)")
+    return [(p, Bool(z3.BoolVal(False)))]
+
+
 def nd_method(ex, p, base: NDArr, attr, args, kw, node):
     if attr == "astype":
         return [(p, base)]
     if attr == "copy":
         return [(p, base)]
+    if attr == "sum" and not args and not kw:
+        return [(p, nd_sum(ex, base))]
     raise Unsupported(f"ndarray.{attr}")
 
 
@@ -276,7 +308,7 @@ def xr_variable(ex, p, args, kw, node):
 
 
 ARRAY_MODEL = {
-    "numpy.arange": np_arange, "numpy.concatenate": np_concatenate, "xarray.Variable": xr_variable,
+    "numpy.arange": np_arange, "numpy.concatenate": np_concatenate, "numpy.mean": np_mean, "numpy.isnan": np_isnan, "xarray.Variable": xr_variable,
     "attr:DataArray.coords": da_getattr("coords"), "attr:DataArray.sizes": da_getattr("sizes"), "attr:DataArray.indexes": da_getattr("indexes"),
     "attr:DataArray.dims": da_getattr("dims"), "attr:DataArray.data": da_getattr("data"),
     "method:DataArray.sel": da_sel, "method:DataArray.reindex": da_reindex,
